@@ -54,6 +54,9 @@ func init() {
 		c.Run.Assumef("effects of the go command that packages.Load spawns (module cache, build cache) are outside the program; dependencies (x/tools) are covered by the thorough tier's call-graph listing only")
 		gen.CheckEffectSites(c.Run, c.Prog)
 		cliEffects(c)
+		// with -rm whatever sits at -out (a dangling link included) is removed before anything is written:
+		// otherwise the write goes through it to a place -out does not name
+		cliRemove(c)
 		if c.Tier == "thorough" {
 			gen.CheckEffectsGraph(c.Run, c.Prog)
 		}
